@@ -158,3 +158,91 @@ def rf20(run, units, functions=None):
                                       'after the first step the variable is constant, so the traversal never advances' %
                                       (V, F.src(part), V), line=s['l'])
     return n
+
+
+# ---------------------------------------------------------------------------------------------
+# must-pass-through helpers
+# ---------------------------------------------------------------------------------------------
+
+def blocks_with(cfg, pred):
+    """ids of blocks that evaluate a node satisfying pred"""
+    out = set()
+    for B in cfg.blocks.values():
+        for e in B.elems:
+            if any(pred(x) for x in cfg.local_walk(e)):
+                out.add(B.id)
+                break
+    return out
+
+
+def reachable_avoiding(cfg, target_blocks, avoid_blocks):
+    """target blocks reachable from the entry along paths that enter no avoid block (the target itself may be an avoid
+    block only if the match comes after … conservatively: a target that is itself an avoid block counts as passing)"""
+    seen = cfg.reachable_from(cfg.entry, avoid=lambda b: b in avoid_blocks)
+    return {t for t in target_blocks if t in seen}
+
+
+def return_blocks(f, want=lambda ret: True):
+    cfg = f.cfg
+    res = {}
+    for B in cfg.blocks.values():
+        for e in B.elems:
+            if e['k'] == 'ReturnStmt' and want(e):
+                res[B.id] = e
+    return res
+
+
+def rf16h(run):
+    """register look-ups consult the declared-register tables"""
+    rule = 'RF16h'
+    run.rule(rule, 'find_rd_by_reg / find_rd_by_name: every path that returns a register descriptor passes the membership test in the '
+                   'function\'s declared-register hash table (HTAB_FIND), and the returned slot is the one the table reported')
+    tu = run.tu('mir')
+    inst = 0
+    for fname, tab in (('find_rd_by_reg', 'reg2rdn_tab'), ('find_rd_by_name', 'name2rdn_tab')):
+        f = tu.func(fname)
+        cfg = f.cfg
+        run.functions_analysed.add(('mir', fname))
+
+        def is_lookup(x, tab=tab):
+            if x['k'] != 'CallExpr' or not (x.get('callee') or '').startswith('HTAB_'):
+                return False
+            args = F.call_args(x)
+            if len(args) < 4:
+                return False
+            a0 = F.strip(args[0])
+            act = F.strip(args[2])
+            return a0['k'] == 'MemberExpr' and a0['n'] == tab and act['k'] == 'DeclRefExpr' and act['n'] == 'HTAB_FIND'
+        lookups = [x for x in f.walk() if is_lookup(x)]
+        if not lookups:
+            run.ob(rule, (fname, 'lookup'), False)
+            run.violation(rule, f, 'lookup in %s' % tab, '%s no longer looks the register up in %s' % (fname, tab), line=f.line)
+            continue
+        # the variable that receives the found index
+        outvars = set()
+        for c in lookups:
+            a = F.strip(F.call_args(c)[3])
+            if a['k'] == 'UnaryOperator' and a['op'] == '&':
+                v = F.strip(a['c'][0])
+                if v['k'] == 'DeclRefExpr':
+                    outvars.add(v['n'])
+        lb = blocks_with(cfg, is_lookup)
+        rets = return_blocks(f, lambda r: F.kids(r) and F.const_value(F.strip(F.kids(r)[0])) != 0
+                             and F.strip(F.kids(r)[0])['k'] != 'GNUNullExpr')
+        for bid, ret in rets.items():
+            inst += 1
+            bypass = bid not in lb and bool(reachable_avoiding(cfg, {bid}, lb))
+            rv = F.kids(ret)[0]
+            idx_ok = any(x['k'] == 'DeclRefExpr' and x['n'] in outvars for x in F.walk(rv))
+            ok = (not bypass) and idx_ok
+            run.ob(rule, (fname, ret['l']), ok, {'function': fname, 'return': F.src(ret), 'table': tab,
+                                                'dominated by HTAB_FIND': not bypass, 'uses found index': idx_ok})
+            if bypass:
+                run.violation(rule, f, 'return %s' % F.src(rv),
+                              '%s returns descriptor %s on a path that never asks %s whether the register is declared' %
+                              (fname, F.src(rv), tab), line=ret['l'])
+            elif not idx_ok:
+                run.violation(rule, f, 'return %s' % F.src(rv),
+                              '%s returns %s, which is not the slot reported by the look-up in %s' % (fname, F.src(rv), tab),
+                              line=ret['l'])
+    return inst
